@@ -107,6 +107,10 @@ func Plan(out string, seed uint64, tier string, scenario string, count int, epoc
 		if !quick {
 			pr.Genesis = 9
 		}
+		if !quick {
+			// every other thorough chain spreads its forks over the whole chain (long phase0/altair/bellatrix/capella stretches)
+			pr.WideForks = i%2 == 1
+		}
 		if !quick && scenario == "" {
 			switch i % 12 {
 			case 3:
@@ -329,7 +333,7 @@ func Summarize(results []ChainResult, seed uint64, tier string, secs float64) ma
 	sort.Strings(problems)
 	return map[string]interface{}{
 		"missing_fork_ops": missing,
-		"seed": seed, "tier": tier, "seconds": secs, "bytes": bytes, "chains": chains,
+		"seed":             seed, "tier": tier, "seconds": secs, "bytes": bytes, "chains": chains,
 		"per_fork": perFork, "counts": other, "problems": problems, "unmet_expectations": unmet,
 		"intended_rule": intended,
 	}
